@@ -102,3 +102,18 @@ Proof.
 Qed.
 
 End Engine.
+
+(* the control part of the state after a call is a_finish (a_pre st) last, whatever the mask *)
+Lemma pib_ctl {C : CNum} {S : SNum C} {St} (B : arch St) (s s' : astate St) wi wo m cnt outs :
+  pib B s wi wo m = Ok (s', cnt, outs) -> exists last, as_ctl s' = a_finish B (a_pre B (as_ctl s)) last.
+Proof.
+  unfold pib.
+  match goal with |- context [bind ?x _] => destruct x as [mask| | | |] end; cbn [bind]; try discriminate.
+  destruct (validate_buffers _ _ _ _ _ _) as [[]| | | |]; cbn [bind]; try discriminate.
+  destruct (shift_all _ _ _ _) as [bufs1| | | |]; cbn [bind]; try discriminate.
+  destruct (fill_all _ _ _ _ _) as [bufs2| | | |]; cbn [bind]; try discriminate.
+  match goal with |- context [bind ?x _] => destruct x as [[ps last]| | | |] end; cbn [bind]; try discriminate.
+  destruct (outputs_all _ _ _ _ _ _) as [o| | | |]; cbn [bind]; try discriminate.
+  intros H. injection H as <- _ _. exists last. reflexivity.
+Qed.
+
